@@ -28,6 +28,8 @@ def inst(name, N, S, mode=0, wait=2, depth=2, cont=0, api=0, tiers=('quick', 'th
     defs.update(kw)
     d = {'name': name, 'src': 'states.cpp', 'engine': 'cbmc', 'defs': defs, 'models': ['aligned_alloc'],
          'unwind': unwind or max(S + 2, N + 3), 'timeout': timeout, 'tiers': list(tiers),
+         # multi-group dynamic scheduling needs > 16 workers: unreachable here, the unwinding assertion proves it
+         'unwind_fn': {'re:parallel_for_dynamicMultiGroupImpl.*_clI': 1},
          'bounds': ('int32 range, start %d, size 0..%d; %s; %s; %s; numPoolThreads = %d; maxThreads 0..%d or INT32_MAX; '
                     'minItemsPerChunk 0..%d; granularity 1..%d; wait %s; reuseExistingState true/false with 0..%d states '
                     'already in the container; symbolic task order; at most %d body invocations in flight (nesting)' % (
@@ -44,8 +46,8 @@ TH = ('thorough',)
 EX = ('experimental',)
 INSTANCES = [
     inst('static_n1', 1, 6),
-    inst('static_n2', 2, 6, depth=3, tiers=EX, timeout=1500),
-    inst('auto_nowait_n1', 1, 4, mode=1, wait=0, tiers=EX, timeout=1500),
-    inst('auto_wait_n1', 1, 6, mode=1, wait=1, tiers=EX, timeout=1500),
-    inst('chunk_n1', 1, 6, mode=2, tiers=EX, timeout=1500),
+    inst('static_n2', 2, 6, depth=3, tiers=EX, timeout=400),
+    inst('auto_nowait_n1', 1, 4, mode=1, wait=0, tiers=EX, timeout=400),
+    inst('auto_wait_n1', 1, 6, mode=1, wait=1, tiers=EX, timeout=400),
+    inst('chunk_n1', 1, 6, mode=2, tiers=EX, timeout=400),
 ]
